@@ -224,7 +224,7 @@ class TimeShiftMonitor:
 # ------------------------------------------------------------------------------------------------
 NS_QUICK = [1, 2, 3, 5, 16, 17, 101, 256, 1009, 4096]
 SSHAPES = [(), (3,), (4, 2), (2, 1, 3), (2, 2), (3, 3, 1)]
-SHIFT_KINDS = ["int", "frac", "quantity", "long", "mixed", "zeros_among", "half", "quantity_whole"]
+SHIFT_KINDS = ["int", "frac", "quantity", "long", "mixed", "zeros_among", "half", "quantity_whole", "near_int_large"]
 SHAPE_KINDS = ["scalar", "full", "lower", "len1_first", "len1_last", "len1_all"]
 
 
@@ -260,6 +260,10 @@ def make_shift(rng, N, sshape, kind, shape_kind):
                 s.flat[0] = 1.0
         elif rng.random() < 0.5:
             s = s * 0 + 1.5
+    elif kind == "near_int_large":
+        # many samples plus a small fraction (1500.01): relative to the shift the fraction is tiny, in samples it is not
+        big = max(2, int(N * 0.8))
+        s = rng.integers(max(1, big // 3), big + 1, size=shp) * rng.choice([-1, 1], size=shp) + rng.choice([0.01, 0.004, -0.02, 0.0075], size=shp)
     else:  # half
         s = rng.integers(-lim, lim, size=shp) + 0.5
     if np.ndim(s) == 0:
@@ -369,7 +373,7 @@ def install_universal(ctx):
 
 def workloads(ctx):
     q = ctx.tier == "quick"
-    return [("R", 1, wl_R), ("shift", 4480 if q else 42000, wl_shift)]
+    return [("R", 1, wl_R), ("shift", 5040 if q else 47000, wl_shift)]
 
 
 def setup(ctx):
